@@ -133,7 +133,7 @@ def check_node(rep, node, tier, idx):
             if not sampled:
                 rep.sample({"type": node.label, "value": repr(v)[:80], "encoded": enc[:32].hex()})
                 sampled = True
-        rep.case((node.label, repr(v)), nontrivial=True, outcome=outcome, calls=calls)
+        rep.case((node.label, repr(v)), nontrivial=True, outcome=(outcome + ":" + node.cls) if outcome == "ok" else outcome, calls=calls)
 
 
 def run_shard(shard, tier, seed):
